@@ -146,6 +146,170 @@ def gen_spec(rng, k, n, partof):
     return {'flags': flags, 'nodes': nodes}
 
 
+def gen_template_env(rng, discipline=True):
+    """environments shaped like the code base's users of the two queues, with random perturbations:
+    (a) MediaList / MediaQuery: a comma separated list whose members start a child that hands back what it cannot use
+    (b) CSSVariablesDeclaration / PropertyValue: `name : value ;` where the value child stops at `;` and KEEPS it
+        (tokenizer.push), to be re-emitted when the source is the module-level tokenizer
+    (c) PropertyValue / CSSFunction: nextSor productions with nested function children"""
+    kind = rng.choice('abc')
+    A, B, C_, COMMA, SEMI, SLASH, LP, RP, NUM = 0, 1, 2, 3, 4, 5, 6, 7, 8
+
+    def fl(*names):
+        return ''.join(names)
+    if kind == 'a':
+        start = [A, LP] if rng.random() < 0.7 else [A, B, LP]
+        parent = {'flags': rng.choice(['', 'K', 'E']), 'nodes': [
+            ('S', [1, 2], 1, 1),
+            ('P', start, '', 'c1'),
+            ('S', [3, 4], 0, None),
+            ('P', [COMMA], '', rng.choice(['d', 'k'])),
+            ('P', start, '' if discipline else rng.choice(['', 's', 'k']), 'c1'),
+        ]}
+        stop_if = 'i' if rng.random() < 0.9 else ''
+        child = {'flags': rng.choice(['', 'P']), 'nodes': [
+            ('C', [1, 6], '-'),
+            ('S', [2, 3, 4], 1, 1),
+            ('P', [B], 'o', 'k'),                                  # ONLY|NOT
+            ('P', [A], stop_if, 'k'),                              # media_type, stopIfNoMoreMatch=self._partof
+            ('S', [5, 7], 0, None),
+            ('P', [C_], '', 'k'),                                  # AND
+            ('S', [7], 1, 1),                                      # expression first
+            ('S', [8, 9, 10], 1, 1),
+            ('P', [LP], '', 'k'),
+            ('P', [A, B], '', rng.choice(['k', 'c2'])),            # media_feature (sometimes a value child)
+            ('P', [RP], stop_if, 'k'),
+        ]}
+        leaf = {'flags': rng.choice(['', 'P']), 'nodes': [('C', [1, 2], '-'), ('P', [A, B], 's', 'k'), ('P', [NUM], 's', 'k')]}
+        env = [parent, child, leaf]
+        partof = [False, bool(stop_if), False]
+        if not discipline and rng.random() < 0.5:
+            env = [child, parent, leaf]          # the hand-back grammar called stand-alone (the pinned defect)
+            # renumber children
+            env[0] = {'flags': child['flags'], 'nodes': [n if n[0] != 'P' or not n[3].startswith('c') else (n[0], n[1], n[2], 'c2')
+                                                       for n in child['nodes']]}
+            env[1] = {'flags': parent['flags'], 'nodes': [n if n[0] != 'P' or not n[3].startswith('c') else (n[0], n[1], n[2], 'd')
+                                                        for n in parent['nodes']]}
+            partof = [bool(stop_if), False, False]
+        return env, partof
+    if kind == 'b':
+        parent = {'flags': 'E', 'nodes': [
+            ('S', [1, 5, 11, 12], 1, 1),
+            ('S', [2, 3, 4], 1, 1),
+            ('P', [A, B], '', 'k'),                                # ident
+            ('P', [C_], 'o', 'd'),                                 # ':'
+            ('P', OTHER, '', 'c1'),                                # term -> PropertyValue child
+            ('S', [6, 7, 8, 9], 0, None),
+            ('P', [9, 13], 'o', 'k'),                              # S (never reaches the engine unless checkS)
+            ('P', [SEMI], 'o', 'd'),
+            ('P', [9, 13], 'o', 'k'),
+            ('S', [10, 13, 14], 1, 1),
+            ('P', [A, B], '', 'k'),
+            ('P', [9, 13], 'o', 'k'),
+            ('P', [SEMI], 'o', 'd'),
+            ('P', [C_], 'o', 'd'),
+            ('P', OTHER, '', 'c1'),
+        ]}
+        # fix the pre-order requirement (children larger than parents): node 9's children 10, 13, 14 are fine
+        child = {'flags': rng.choice(['', 'P']), 'nodes': [
+            ('S', [1, 2], 1, 1),
+            ('P', [A, B, NUM], 'n', rng.choice(['k', 'c2'])),
+            ('S', [3, 6, 7], 0, None),
+            ('C', [4, 5], 't'),
+            ('P', [COMMA], 'om', 'k'),
+            ('P', [SLASH], 'om', 'k'),
+            ('P', [SEMI], 'ok', 'k'),                              # END ';' stopAndKeep
+            ('P', [A, B, NUM], 'n', rng.choice(['k', 'c2'])),
+        ]}
+        leaf = {'flags': '', 'nodes': [('C', [1, 2], '-'), ('P', [A, B], 's', 'k'), ('P', [NUM], 's', 'k')]}
+        return [parent, child, leaf], [False, False, False]
+    # kind c
+    top = {'flags': rng.choice(['', 'P']), 'nodes': [
+        ('S', [1, 4], 1, 1),
+        ('C', [2, 3], '-'),
+        ('P', [A, NUM], 'n', 'k'),
+        ('P', [B], 'n', 'c1'),                                     # function start
+        ('S', [5, 9, 10], 0, None),
+        ('C', [6, 7, 8], 't'),
+        ('P', [9, 13], '', 'd'),
+        ('P', [COMMA], 'om', 'k'),
+        ('P', [SLASH], 'om', 'k'),
+        ('P', [SEMI], 'ok', 'k'),
+        ('C', [11, 12], '-'),
+        ('P', [A, NUM], 'n', 'k'),
+        ('P', [B], 'n', 'c1'),
+    ]}
+    func = {'flags': rng.choice(['', 'P', 'K']), 'nodes': [
+        ('S', [1, 2, 3, 7], 1, 1),
+        ('P', [B], '', 'k'),
+        ('P', [LP], '', 'k'),
+        ('S', [4, 5, 6], 0, None),
+        ('P', [A, NUM], 'n', 'k'),
+        ('P', [COMMA], 'o', 'k'),
+        ('P', [B], 'on', 'c2'),
+        ('P', [RP], 's', 'k'),
+    ]}
+    inner = {'flags': '', 'nodes': [('S', [1, 2, 3, 4], 1, 1), ('P', [B], '', 'k'), ('P', [LP], '', 'k'),
+                                    ('P', [A, NUM], 'o', 'k'), ('P', [RP], 's', 'k')]}
+    return [top, func, inner], [False, False, False]
+
+
+def gen_template_tokens(rng, env, src_kind):
+    """mostly well-formed input for the template environments, then damaged a little"""
+    A, B, C_, COMMA, SEMI, SLASH, LP, RP, NUM, S = 0, 1, 2, 3, 4, 5, 6, 7, 8, 9
+    shape = len(env[0]['nodes'])
+    out = []
+    if shape in (5, 11):                      # (a) media list / media query
+        for i in range(rng.randint(1, 3)):
+            if i:
+                out += [COMMA] + ([S] if rng.random() < 0.5 else [])
+            if rng.random() < 0.2:
+                out += [B, S]
+            out += [A]
+            for _ in range(rng.choice([0, 0, 1, 2])):
+                out += [S, C_, S, LP, rng.choice([A, B]), RP]
+            if rng.random() < 0.35:
+                out += [S, rng.choice([A, B, NUM, C_])]         # what the child cannot use
+    elif shape == 15:                         # (b) variables declaration
+        for i in range(rng.randint(1, 3)):
+            out += [rng.choice([A, B]), C_]
+            for j in range(rng.randint(1, 3)):
+                if j:
+                    out += rng.choice([[S], [COMMA], [SLASH], [S, COMMA, S]])
+                out += [rng.choice([A, B, NUM])]
+            if rng.random() < 0.8:
+                out += [SEMI]
+            if rng.random() < 0.4:
+                out += [S]
+    else:                                     # (c) value with functions
+        for j in range(rng.randint(1, 4)):
+            if j:
+                out += rng.choice([[S], [COMMA], [SLASH], [S, COMMA], [S, S]])
+            if rng.random() < 0.4:
+                out += [B, LP, rng.choice([A, NUM])]
+                if rng.random() < 0.5:
+                    out += [COMMA, rng.choice([A, NUM])]
+                if rng.random() < 0.85:
+                    out += [RP]
+            else:
+                out += [rng.choice([A, NUM])]
+        if rng.random() < 0.3:
+            out += [SEMI, A]
+    # damage
+    for _ in range(rng.choice([0, 0, 0, 1, 1, 2])):
+        if not out:
+            break
+        i = rng.randrange(len(out))
+        r = rng.random()
+        if r < 0.4:
+            del out[i]
+        elif r < 0.8:
+            out.insert(i, rng.choice(OTHER + [9, 10] + ([12] if src_kind == 'L' else [])))
+        else:
+            out[i] = rng.choice(OTHER)
+    return out
+
+
 def enc_env(env):
     out = []
     for sp in env:
@@ -242,7 +406,22 @@ def read_pushed(tokenizer):
     return items
 
 
-def run_impl(env, k, src_kind, toks, text, raising, saved, pushed, table):
+class CountingList(list):
+    """measurement only (evidence statistics on a sample of the cases): counts hand-overs through savedTokens"""
+    appended = 0
+    popped = 0
+
+    def append(self, x):
+        CountingList.appended += 1
+        list.append(self, x)
+
+    def pop(self, *a):
+        r = list.pop(self, *a)
+        CountingList.popped += 1
+        return r
+
+
+def run_impl(env, k, src_kind, toks, text, raising, saved, pushed, table, stats=None):
     """returns the reply string in the model driver's format"""
     import xml.dom
     import cssutils
@@ -253,6 +432,17 @@ def run_impl(env, k, src_kind, toks, text, raising, saved, pushed, table):
     for t in reversed(pushed):
         prodparser.tokenizer.push(t)
     src = text if src_kind == 'T' else list(toks)
+    orig_list = prodparser.savedTokens
+    if stats is not None:
+        CountingList.appended = CountingList.popped = 0
+        prodparser.savedTokens = CountingList(orig_list)
+        pushes = [0]
+        tk = prodparser.tokenizer
+
+        def counting_push(*tokens, _orig=type(tk).push):
+            pushes[0] += 1
+            return _orig(tk, *tokens)
+        tk.push = counting_push
     try:
         with time_limit(3):
             res = run_child(env, k, src, table)
@@ -270,6 +460,12 @@ def run_impl(env, k, src_kind, toks, text, raising, saved, pushed, table):
     except RecursionError:
         out = 'recursion'
     sv = list(reversed(prodparser.savedTokens))
+    if stats is not None:
+        stats['handed_back'] = CountingList.appended
+        stats['popped'] = CountingList.popped
+        stats['pushed'] = pushes[0]
+        del prodparser.tokenizer.push
+        prodparser.savedTokens = orig_list
     pu = read_pushed(prodparser.tokenizer)
     reply = '%s / %s / %s' % (out, enc_toks(sv, table), enc_toks(pu, table))
     # leave the process clean for the next case
@@ -279,13 +475,26 @@ def run_impl(env, k, src_kind, toks, text, raising, saved, pushed, table):
 
 
 # ---------------------------------------------------------------------------------------------
-def gen_tokens(rng, src_kind):
-    """token symbols for one case; string sources are rendered and re-tokenized by the caller"""
-    n = rng.choice([0, 1, 2, 3, 4, 5, 6, 8, 10])
+def env_symbols(env):
+    out = []
+    for sp in env:
+        for n in sp['nodes']:
+            if n[0] == 'P':
+                out += [x for x in n[1] if x in OTHER]
+    return out or list(OTHER)
+
+
+def gen_tokens(rng, src_kind, pool=None):
+    """token symbols for one case; string sources are rendered and re-tokenized by the caller.
+    `pool`: symbols the grammars accept (drawn from with preference, so that parses get somewhere)"""
+    n = rng.choice([0, 1, 2, 3, 4, 5, 6, 8, 10, 14])
     syms = []
+    pool = pool or OTHER
     for _ in range(n):
         r = rng.random()
-        if r < 0.62:
+        if r < 0.50:
+            syms.append(rng.choice(pool))
+        elif r < 0.62:
             syms.append(rng.choice(OTHER))
         elif r < 0.80:
             syms.append(9)
@@ -318,9 +527,13 @@ def render(syms):
 
 def make_case(rng, discipline=True, dirty=None):
     import cssutils.tokenize2
-    env, partof = gen_env(rng, partof_discipline=discipline)
     src_kind = rng.choice(['T', 'L'])
-    syms = gen_tokens(rng, src_kind)
+    if rng.random() < 0.4:
+        env, partof = gen_template_env(rng, discipline)
+        syms = gen_template_tokens(rng, env, src_kind)
+    else:
+        env, partof = gen_env(rng, partof_discipline=discipline)
+        syms = gen_tokens(rng, src_kind, env_symbols(env))
     table = dict(SYM)
     text = None
     if src_kind == 'T':
@@ -344,9 +557,9 @@ def model_line(case, fuel=200000):
                                          case['k'], fuel, enc_env(case['env']))
 
 
-def impl_reply(case):
+def impl_reply(case, stats=None):
     return run_impl(case['env'], case['k'], case['src'], case['toks'], case['text'], case['raising'], case['saved'],
-                    case['pushed'], case['table'])
+                    case['pushed'], case['table'], stats)
 
 
 # ---------------------------------------------------------------------------------------------
